@@ -1,3 +1,28 @@
+/-
+C05 (tree-builder part) — how density faults propagate through the NUTS tree builder
+(`Model/Tree.lean`, mirroring `src/nuts.rs`).
+
+A fault is a leapfrog whose outcome `o.leap d` is `.diverge` (recoverable: energy error too large /
+non-finite density) or `.err` (unrecoverable logp error).  For EVERY orbit `o : Orbit ℝ` (faults at
+arbitrary positions, any number of them), EVERY `opt : Options` (no hypothesis on `extraDoublings`)
+and EVERY value of the random choices (`AllOut` / `IsOutcome` of `Thm/C03.lean`), `draw` started on
+the empty log satisfies `draw_fault_spec` (`FaultPost`), from which per outcome `(out, lg)`:
+ 1. `fault_stops_trajectory` : every logged leapfrog but the most recent one succeeded; a faulty
+                               logged leapfrog is the most recent one; no `Ev.leap` after it;
+ 2. `divergence_reported`    : a divergent logged leapfrog is reported with its location;
+ 3. `divergence_genuine`     : a reported divergence is a logged leapfrog that did diverge; no report
+                               means every logged leapfrog succeeded;
+ 4. `unrecoverable_is_err`   : `out = .err` iff some logged leapfrog was unrecoverable;
+ 5. `no_fault_no_report`     : on a fault-free orbit neither `.err` nor a divergence is reported;
+ 6. `returned_state_valid`   : the returned index is 0 or the destination of a logged successful
+                               leapfrog (never of a faulty one) — also without `extraDoublings = 0`.
+
+Proof: relative Hoare-style specifications threaded through `singleStep`, `buildOther`, `extend`,
+`extraLoop`, `drawLoop`: the log grows by successful leapfrogs only (`CleanExt`), or by successful
+leapfrogs followed by one last, faulty leapfrog (`FaultExt`); `turningChecks` and `mergeInto` log no
+leapfrog.  (The namespace is `NutsModel.C05.Tree` because `NutsModel.C05.unrecoverable_is_err`
+already exists in `Thm/C05.lean`.)
+-/
 import NutsModel.Thm.C03
 
 namespace NutsModel.C05.Tree
@@ -577,6 +602,85 @@ example : IsOutcome ((draw exOrbit exOpt).run {})
     (.err, { evs := [.leap 0 (-1)], merges := [], rng := [none] }) :=
   IsOutcome.coin _ false _ (IsOutcome.pure _)
 
+theorem isOutcome_bind {β γ : Type} (f : β → Rand ℝ γ) {a : β} {b : γ} :
+    ∀ {r : Rand ℝ β}, IsOutcome r a → IsOutcome (f a) b → IsOutcome (r.bind f) b
+  | _, .pure _, h2 => h2
+  | _, .coin k c _ h1, h2 => .coin _ c _ (isOutcome_bind f h1 h2)
+  | _, .bern p k c _ h1, h2 => .bern p _ c _ (isOutcome_bind f h1 h2)
+
+theorem isOutcome_bindM {β γ : Type} (x : M ℝ β) (f : β → M ℝ γ) (lg : Log ℝ) {a : β} {lg1 : Log ℝ}
+    {b : γ × Log ℝ} (h1 : IsOutcome (x.run lg) (a, lg1)) (h2 : IsOutcome ((f a).run lg1) b) :
+    IsOutcome ((x >>= f).run lg) b := by
+  show IsOutcome (Rand.bind (x lg) _) b
+  exact isOutcome_bind _ h1 h2
+
+/-- `mergeInto` when no assertion fails and the multinomial test needs no random number -/
+theorem mergeInto_take (self other : Model.Tree ℝ) (dir : Dir) (lg : Log ℝ)
+    (hd : self.depth = other.depth) (hlr : self.left ≤ self.right)
+    (hmain : self.isMain = true → mL dir self other ≤ 0 ∧ mR dir self other ≥ 0)
+    (hge : other.logSize ≥
+      (if self.isMain = true then self.logSize else logaddexp self.logSize other.logSize)) :
+    (mergeInto self other dir).run lg =
+      Rand.pure (.ok { left := mL dir self other, right := mR dir self other, draw := other.draw,
+                       logSize := logaddexp self.logSize other.logSize, depth := self.depth + 1,
+                       isMain := self.isMain },
+                 { lg with merges := (self.depth + 1, self.isMain, other.draw,
+                                       logaddexp self.logSize other.logSize) :: lg.merges }) := by
+  unfold mL mR at *
+  unfold mergeInto
+  cases dir
+  all_goals
+    simp only [hd, hlr, ne_eq, not_true_eq_false, if_false] at hmain ⊢
+    have hpanic : ∀ (a b : ℤ), (self.isMain = true → a ≤ 0 ∧ b ≥ 0) → ¬ (self.isMain = true ∧ ¬ (a ≤ 0 ∧ b ≥ 0)) := by
+      rintro a b h ⟨hm, hn⟩; exact hn (h hm)
+    rw [if_neg (hpanic _ _ hmain), if_pos hge]
+    rfl
+
+noncomputable def exOrbit2 : Orbit ℝ :=
+  { energyErr := fun _ => 0
+    leap := fun i => if i = 2 then .diverge else .ok
+    crit := fun _ _ => false }
+
+def exOpt2 : Options := { maxdepth := 2, mindepth := 0, checkTurning := false, extraDoublings := 0 }
+
+/-- the sub-tree `{1}` and the main tree `[0, 1]` of the run below -/
+noncomputable def exT1 : Model.Tree ℝ :=
+  { left := 1, right := 1, draw := 1, logSize := -(0 : ℝ), depth := 0, isMain := false }
+noncomputable def exM1 : Model.Tree ℝ :=
+  { left := 0, right := 1, draw := 1, logSize := logaddexp ((0 : ℕ) : ℝ) (-(0 : ℝ)), depth := 1, isMain := true }
+
+/-- a divergence *after* a successful doubling: both coins forward, leapfrog `0 → 1` succeeds,
+    leapfrog `1 → 2` diverges and is reported; the draw is the last valid state. -/
+example : IsOutcome ((draw exOrbit2 exOpt2).run {})
+    (.ok { draw := 1, depth := 1, reachedMaxdepth := false, diverging := some (1, 2) },
+     { evs := [.leap 1 2, .leap 0 1], merges := [(1, true, 1, logaddexp ((0 : ℕ) : ℝ) (-(0 : ℝ)))],
+       rng := [none, none] }) := by
+  unfold draw
+  show IsOutcome ((drawLoop exOrbit2 exOpt2 2 Tree.init).run {}) _
+  rw [drawLoop, if_neg (by decide)]
+  refine isOutcome_bindM _ _ _ (IsOutcome.coin _ true _ (IsOutcome.pure _)) ?_
+  refine isOutcome_bindM _ _ _ (a := Ext.ok exM1)
+    (lg1 := { evs := [.leap 0 1], merges := [(1, true, 1, logaddexp ((0 : ℕ) : ℝ) (-(0 : ℝ)))], rng := [none] })
+    ?_ ?_
+  · -- first doubling
+    show IsOutcome ((extend exOrbit2 Tree.init Dir.fwd false).run { rng := [none] }) _
+    unfold extend
+    refine isOutcome_bindM _ _ _ (a := Except.ok exT1) (lg1 := { evs := [.leap 0 1], rng := [none] })
+      (IsOutcome.pure _) ?_
+    refine isOutcome_bindM _ _ _ (a := false) (lg1 := { evs := [.leap 0 1], rng := [none] })
+      (IsOutcome.pure _) ?_
+    refine isOutcome_bindM _ _ _ (a := Except.ok exM1)
+      (lg1 := { evs := [.leap 0 1], merges := [(1, true, 1, logaddexp ((0 : ℕ) : ℝ) (-(0 : ℝ)))], rng := [none] })
+      ?_ (IsOutcome.pure _)
+    rw [mergeInto_take Tree.init exT1 Dir.fwd _ rfl (by decide) (fun _ => ⟨by decide, by decide⟩)
+      (by show (-(0 : ℝ)) ≥ ((0 : ℕ) : ℝ); simp)]
+    exact IsOutcome.pure _
+  · -- second doubling
+    show IsOutcome ((drawLoop exOrbit2 exOpt2 1 exM1).run _) _
+    rw [drawLoop, if_neg (by decide)]
+    refine isOutcome_bindM _ _ _ (IsOutcome.coin _ true _ (IsOutcome.pure _)) ?_
+    exact isOutcome_bindM _ _ _ (a := Ext.diverging exM1 1 2) (IsOutcome.pure _) (IsOutcome.pure _)
+
 #print axioms NutsModel.C05.Tree.draw_fault_spec
 #print axioms NutsModel.C05.Tree.fault_stops_trajectory
 #print axioms NutsModel.C05.Tree.divergence_reported
@@ -585,4 +689,4 @@ example : IsOutcome ((draw exOrbit exOpt).run {})
 #print axioms NutsModel.C05.Tree.no_fault_no_report
 #print axioms NutsModel.C05.Tree.returned_state_valid
 
-end NutsModel.C05.Tree.Tree
+end NutsModel.C05.Tree
